@@ -16,6 +16,7 @@ import (
 	"math"
 	"runtime"
 	"sort"
+	"strings"
 	"sync"
 	"sync/atomic"
 	"time"
@@ -83,6 +84,37 @@ type Cfg struct {
 	NodeBits     uint8 `json:"node_bits"`
 	NodeAtLowest bool  `json:"node_at_lowest"`
 	Node         int64 `json:"node"`
+	// ViaSetup: the configuration is installed through the package's public API
+	// (Setup(UseEpoch, UseNodeMode, NodeAtLowest) on top of the package defaults)
+	// instead of the hook VerifSetConfig; the hook only restores it afterwards.
+	ViaSetup bool `json:"via_setup,omitempty"`
+}
+
+// install makes the configuration current and returns the function restoring the
+// previous one. With ViaSetup the package is first put back to its documented
+// defaults (epoch 2021-01-01, 1024 nodes, node above the step) - Setup cannot
+// switch node-at-lowest off again - and then configured the way a program does.
+func (c Cfg) install(res *vkit.Result) (restore func()) {
+	if !c.ViaSetup {
+		return snowflake.VerifSetConfig(c.EpochMs, c.NodeBits, c.NodeAtLowest)
+	}
+	res.Class("config-via-Setup")
+	restore = snowflake.VerifSetConfig(ms2021, 10, false)
+	var mode snowflake.NodeBitsMode
+	switch c.NodeBits {
+	case 8:
+		mode = snowflake.Node256
+	case 9:
+		mode = snowflake.Node512
+	default:
+		mode = snowflake.Node1024
+	}
+	opts := []snowflake.Option{snowflake.UseEpoch(msTime(c.EpochMs, 0)), snowflake.UseNodeMode(mode)}
+	if c.NodeAtLowest {
+		opts = append(opts, snowflake.NodeAtLowest())
+	}
+	snowflake.Setup(opts...)
+	return restore
 }
 
 func (c Cfg) layout() layout { return layout{uint(c.NodeBits), c.NodeAtLowest} }
@@ -114,6 +146,10 @@ func (c Cfg) classes(res *vkit.Result) {
 		res.Class("epoch-at-horizon")
 	case c.EpochMs > ms2026:
 		res.Class("epoch-in-future")
+	case c.EpochMs == 0:
+		res.Class("epoch=1970 (0)")
+	case c.EpochMs < ms2000:
+		res.Class("epoch-before-2000")
 	}
 }
 
@@ -149,11 +185,15 @@ func genCfg(t *rapid.T, lateEpochs bool) Cfg {
 	default:
 		c.Node = rapid.Int64Range(0, nodeMax).Draw(t, "node")
 	}
-	k := rapid.IntRange(0, 9).Draw(t, "epochKind")
-	if !lateEpochs && k >= 8 {
+	k := rapid.IntRange(0, 11).Draw(t, "epochKind")
+	if !lateEpochs && (k == 8 || k == 9) {
 		k = 3
 	}
 	switch k {
+	case 10: // the Unix epoch itself (epoch value 0) and the millisecond after it
+		c.EpochMs = rapid.SampledFrom([]int64{0, 0, 1}).Draw(t, "epochZero")
+	case 11:
+		c.EpochMs = rapid.Int64Range(0, ms2000).Draw(t, "epochEarly")
 	case 0, 1:
 		c.EpochMs = ms2000
 	case 2:
@@ -165,6 +205,7 @@ func genCfg(t *rapid.T, lateEpochs bool) Cfg {
 	default:
 		c.EpochMs = rapid.Int64Range(ms2000, ms2026).Draw(t, "epoch")
 	}
+	c.ViaSetup = rapid.IntRange(0, 3).Draw(t, "viaSetup") == 0
 	return c
 }
 
@@ -258,7 +299,7 @@ func ExecHard(c HardCase) *vkit.Result {
 	lay := c.Cfg.layout()
 	c.Cfg.classes(res)
 
-	restoreCfg := snowflake.VerifSetConfig(c.Cfg.EpochMs, c.Cfg.NodeBits, c.Cfg.NodeAtLowest)
+	restoreCfg := c.Cfg.install(res)
 	defer restoreCfg()
 	var cur time.Time
 	restoreNow := snowflake.VerifSetNow(func() time.Time { return cur })
@@ -336,6 +377,22 @@ func ExecHard(c HardCase) *vkit.Result {
 			res.Class("over-4096-per-ms")
 		}
 		lastReading, haveReading = off, true
+		if prev > 0 {
+			// how far the ids already issued (or handed to NewNode) run ahead of the clock
+			pts, _, _ := lay.decode(prev)
+			switch lead := pts - off; {
+			case lead > msYear:
+				res.Class("ids-ahead-of-clock>1y")
+			case lead > msDay:
+				res.Class("ids-ahead-of-clock>1d")
+			case lead > msHour:
+				res.Class("ids-ahead-of-clock>1h")
+			case lead > 5*msMinute:
+				res.Class("ids-ahead-of-clock>5min")
+			case lead > 10*msSecond:
+				res.Class("ids-ahead-of-clock>10s")
+			}
+		}
 		for i := 0; i < s.Calls; i++ {
 			id := node.Generate()
 			calls++
@@ -381,15 +438,66 @@ func ExecHard(c HardCase) *vkit.Result {
 var callKinds = []int{1, 1, 2, 3, 4095, 4096, 4097, 8192, 9000}
 var bigJumps = []int64{1000, 60000, 86400000, 31536000000}
 
+const (
+	msSecond = int64(1000)
+	msMinute = 60 * msSecond
+	msHour   = 60 * msMinute
+	msDay    = 24 * msHour
+	msYear   = 365 * msDay
+)
+
+// drawSpan draws a positive number of milliseconds from every scale a clock step,
+// a rewind or a restart lead can have: milliseconds, seconds, minutes, hours,
+// days, years.
+func drawSpan(t *rapid.T, label string) int64 {
+	switch rapid.IntRange(0, 7).Draw(t, label+"Scale") {
+	case 0:
+		return rapid.Int64Range(1, 10000).Draw(t, label+"Ms")
+	case 1:
+		return msSecond*rapid.Int64Range(1, 120).Draw(t, label+"S") + rapid.Int64Range(0, 999).Draw(t, label+"Frac")
+	case 2:
+		return msMinute*rapid.Int64Range(1, 120).Draw(t, label+"Min") + rapid.Int64Range(0, msMinute-1).Draw(t, label+"Frac")
+	case 3:
+		return msHour*rapid.Int64Range(1, 48).Draw(t, label+"H") + rapid.Int64Range(0, msHour-1).Draw(t, label+"Frac")
+	case 4:
+		return msDay*rapid.Int64Range(1, 800).Draw(t, label+"D") + rapid.Int64Range(0, msDay-1).Draw(t, label+"Frac")
+	case 5:
+		return msYear * rapid.Int64Range(1, 8).Draw(t, label+"Y")
+	case 6:
+		// just beyond the round thresholds a plausibility test would use
+		return rapid.SampledFrom([]int64{5 * msMinute, msHour, msDay, 7 * msDay, msYear}).Draw(t, label+"Round") + rapid.Int64Range(0, 2).Draw(t, label+"Over")
+	default:
+		return rapid.Int64Range(1, 10*msYear).Draw(t, label+"Any")
+	}
+}
+
 func genSegs(t *rapid.T) []Seg {
 	n := rapid.IntRange(1, 8).Draw(t, "nsegs")
 	segs := make([]Seg, n)
 	for k := range segs {
 		s := &segs[k]
 		if k > 0 {
-			switch rapid.IntRange(0, 7).Draw(t, "deltaKind") {
+			switch rapid.IntRange(0, 9).Draw(t, "deltaKind") {
 			case 0:
 				s.DeltaMs = -rapid.Int64Range(1, 10000).Draw(t, "rewind")
+			case 8: // rewind on any scale: seconds, minutes, hours, days, years
+				s.DeltaMs = -drawSpan(t, "rewind")
+			case 9:
+				// return from an excursion: the clock goes back by (about) the last forward
+				// jump, e.g. after a wrong date had been set and was corrected
+				back := int64(0)
+				for j := k - 1; j >= 1 && back == 0; j-- {
+					if segs[j].DeltaMs >= msSecond {
+						back = segs[j].DeltaMs
+					}
+				}
+				if back == 0 {
+					back = drawSpan(t, "rewind")
+				}
+				s.DeltaMs = -back + rapid.SampledFrom([]int64{0, 0, -1, 1, -1000, 1000}).Draw(t, "returnJitter")
+				if s.DeltaMs >= 0 {
+					s.DeltaMs = -1
+				}
 			case 1:
 				s.DeltaMs = -1
 			case 2, 3:
@@ -416,7 +524,7 @@ func genSegs(t *rapid.T) []Seg {
 		switch {
 		case k == 0 && r >= 6, k > 0 && r == 7:
 			s.Restart = 2
-			switch rapid.IntRange(0, 4).Draw(t, "aheadKind") {
+			switch rapid.IntRange(0, 7).Draw(t, "aheadKind") {
 			case 0:
 				s.AheadMs = 0
 			case 1:
@@ -425,8 +533,10 @@ func genSegs(t *rapid.T) []Seg {
 				s.AheadMs = 1000
 			case 3:
 				s.AheadMs = 60000
-			default:
+			case 4:
 				s.AheadMs = rapid.Int64Range(0, 10000).Draw(t, "aheadMs")
+			default: // lead on any scale: the node was stopped while its ids ran (far) ahead of the clock
+				s.AheadMs = drawSpan(t, "ahead")
 			}
 			s.AheadStep = rapid.SampledFrom([]int{0, 1, stepMax - 1, stepMax, -1}).Draw(t, "aheadStep")
 			if s.AheadStep < 0 {
@@ -446,27 +556,58 @@ func GenHard(t *rapid.T) HardCase {
 	// computed headroom: the start offset is chosen after the trajectory, so that
 	// start + all forward jumps + restart leads + one millisecond per 4096 calls
 	// stays inside the timestamp width
-	var fwd, ahead int64
+	// need: the farthest the trajectory reaches above its start (readings and
+	// restart leads); minPre: the farthest it falls below it
+	var pre, need, minPre int64
 	total := 0
 	for _, s := range c.Segs {
-		if s.DeltaMs > 0 {
-			fwd += s.DeltaMs
+		pre += s.DeltaMs
+		if pre > need {
+			need = pre
 		}
-		ahead += s.AheadMs
+		if pre < minPre {
+			minPre = pre
+		}
+		if s.Restart == 2 {
+			if pre+s.AheadMs > need {
+				need = pre + s.AheadMs
+			}
+			if s.AheadMs > need {
+				need = s.AheadMs
+			}
+		}
 		total += s.Calls
 	}
-	top := lay.maxTs() - (fwd + ahead + int64(total/4096) + int64(len(c.Segs)) + 8)
+	top := lay.maxTs() - (need + int64(total/4096) + int64(len(c.Segs)) + 8)
+	bottom := -c.Cfg.EpochMs - minPre // no reading before 1970
+	if top < bottom {
+		top = bottom // does not fit the width: ExecHard will skip it
+	}
+	between := func(lo, hi int64, label string) int64 {
+		if lo < bottom {
+			lo = bottom
+		}
+		if hi > top {
+			hi = top
+		}
+		if lo >= hi {
+			return lo
+		}
+		return rapid.Int64Range(lo, hi).Draw(t, label)
+	}
 	boundary := int64(nanoEndMs) - c.Cfg.EpochMs // last reading whose UnixNano is defined
 	var start int64
-	switch rapid.IntRange(0, 9).Draw(t, "startKind") {
+	switch rapid.IntRange(0, 10).Draw(t, "startKind") {
 	case 0:
 		start = -rapid.Int64Range(1, 20000).Draw(t, "beforeEpoch")
+	case 10: // long before the epoch (as far back as 1970)
+		start = -drawSpan(t, "beforeEpoch")
 	case 1:
 		start = 0
 	case 2:
 		start = rapid.Int64Range(1, 10000).Draw(t, "early")
 	case 3, 4:
-		start = rapid.Int64Range(0, top).Draw(t, "anywhere")
+		start = between(0, top, "anywhere")
 	case 5, 6:
 		start = top - rapid.Int64Range(0, 5000).Draw(t, "nearEnd")
 	case 7:
@@ -481,7 +622,7 @@ func GenHard(t *rapid.T) HardCase {
 			lo = 0
 		}
 		if lo <= top {
-			start = rapid.Int64Range(lo, top).Draw(t, "afterHorizon")
+			start = between(lo, top, "afterHorizon")
 		} else {
 			start = top - rapid.Int64Range(0, 5000).Draw(t, "nearEnd")
 		}
@@ -489,13 +630,16 @@ func GenHard(t *rapid.T) HardCase {
 	if start > top {
 		start = top
 	}
+	if start < bottom {
+		start = bottom
+	}
 	c.StartOffMs = start
 	return c
 }
 
-const ruleHard = "G: config {epoch 2000..2026 | 2100..2262-04-11 (the last epoch Setup can express), nodeBits 8/9/10, node-at-lowest, node 0/1/max/random} via VerifSetConfig; " +
-	"1-8 clock segments (delta: rewind 1 ms..10 s, 0, +1 ms, +small, +1 s..5 y; calls 1,2,3,4095,4096,4097,8192,9000 or 1..200; optional sub-ms part) " +
-	"read through VerifSetNow; restarts NewNode(node,last issued id) or NewNode(node, id ahead of the clock); start offset before the epoch, 0, anywhere, " +
+const ruleHard = "G: config {epoch 0 | 1 | 1970..2000 | 2000..2026 | 2100..2262-04-11 (the last epoch Setup can express), nodeBits 8/9/10, node-at-lowest, node 0/1/max/random} installed via VerifSetConfig or (1 in 4) via the public Setup(UseEpoch, UseNodeMode, NodeAtLowest) on top of the defaults; " +
+	"1-8 clock segments (delta: rewind 1 ms..10 s or on any scale s/min/h/d/y up to 10 y, return from the last forward jump (+-1 ms, +-1 s), 0, +1 ms, +small, +1 s..5 y; calls 1,2,3,4095,4096,4097,8192,9000 or 1..200; optional sub-ms part) " +
+	"read through VerifSetNow; restarts NewNode(node,last issued id) or NewNode(node, id ahead of the clock by 0 ms..years); start offset before the epoch (ms .. years, never before 1970), 0, anywhere, " +
 	"at the top of the timestamp width minus computed headroom, at / after the int64-nanosecond horizon (2262-04-11). " +
 	"O: strict chain of ids incl. across restarts (first id after NewNode(node,last) > last), sign bit clear, decoded node == configured, decoded timestamp >= clock - epoch (own decoder). " +
 	"NT: some call reads a clock value <= the reading of the previous call (stall or rewind spanning >= 1 call)."
@@ -511,8 +655,9 @@ var PartHard = vkit.Part[HardCase]{
 // int64-nanosecond horizon), so that these corners do not depend on the seed.
 var PartHardEdges = vkit.Part[HardCase]{
 	Property: Property, Name: "hard-edges",
-	Rule: "fixed list: nodeBits 8/9/10 x node-at-lowest x node {1,max} x epoch {2000, default 2021, 2200, 2262-04-11 horizon} x start {-1, 0, horizon-1, 2270-01-01, top of width} x " +
-		"{stall 4097 calls; 2 calls, rewind 1 s, 4097 calls, restart with last id, +1 ms, 2 calls}; starts outside the width are skipped. Same oracle and NT rule as part hard.",
+	Rule: "fixed list: nodeBits 8/9/10 x node-at-lowest x node {1 (config via hook), max (config via Setup)} x epoch {0 (1970), 2000, default 2021, 2200, 2262-04-11 horizon} x start {-1, 0, horizon-1, 2270-01-01, top of width} x " +
+		"{stall 4097 calls; 2 calls, rewind 1 s, 4097 calls, restart with last id, +1 ms, 2 calls; 2 calls, rewind 5 min, 2 calls, rewind 1 h, 2 calls, rewind 1 d + restart with last id, 2 calls, restart with an id 1 d ahead, 2 calls}; " +
+		"starts outside the width and trajectories reaching before 1970 are left out. Same oracle and NT rule as part hard.",
 	Exec: ExecHard,
 }
 
@@ -522,8 +667,9 @@ func HardEdgeCases() []HardCase {
 	for _, nb := range []uint8{8, 9, 10} {
 		for _, low := range []bool{false, true} {
 			for _, node := range []int64{1, 1<<nb - 1} {
-				for _, ep := range []int64{ms2000, ms2021, ms2200, nanoEndMs} {
-					cfg := Cfg{EpochMs: ep, NodeBits: nb, NodeAtLowest: low, Node: node}
+				for _, ep := range []int64{0, ms2000, ms2021, ms2200, nanoEndMs} {
+					// the largest node of each layout is configured through Setup, the other through the hook
+					cfg := Cfg{EpochMs: ep, NodeBits: nb, NodeAtLowest: low, Node: node, ViaSetup: node != 1}
 					lay := cfg.layout()
 					starts := []int64{-1, 0, nanoEndMs - ep - 1, ms2270 - ep, lay.maxTs() - 16}
 					seen := map[int64]bool{}
@@ -532,10 +678,17 @@ func HardEdgeCases() []HardCase {
 							continue
 						}
 						seen[st] = true
-						out = append(out,
-							HardCase{Cfg: cfg, StartOffMs: st, Segs: []Seg{{Calls: 4097}}},
-							HardCase{Cfg: cfg, StartOffMs: st, Segs: []Seg{{Calls: 2}, {DeltaMs: -1000, Calls: 4097, SubNs: 999999}, {Restart: 1, Calls: 1}, {DeltaMs: 1001, Calls: 2}}},
-						)
+						if ep+st-1000 >= 0 {
+							out = append(out,
+								HardCase{Cfg: cfg, StartOffMs: st, Segs: []Seg{{Calls: 4097}}},
+								HardCase{Cfg: cfg, StartOffMs: st, Segs: []Seg{{Calls: 2}, {DeltaMs: -1000, Calls: 4097, SubNs: 999999}, {Restart: 1, Calls: 1}, {DeltaMs: 1001, Calls: 2}}},
+							)
+						}
+						// far rewinds: 5 min, 1 h, restart after another day back, restart with an id more than a day ahead
+						if ep+st-(5*msMinute+1)-(msHour+1)-msDay >= 0 {
+							out = append(out, HardCase{Cfg: cfg, StartOffMs: st, Segs: []Seg{{Calls: 2}, {DeltaMs: -5*msMinute - 1, Calls: 2}, {DeltaMs: -msHour - 1, Calls: 2},
+								{DeltaMs: -msDay, Restart: 1, Calls: 2}, {Restart: 2, AheadMs: msDay + 2, AheadStep: stepMax, Calls: 2}}})
+						}
 					}
 				}
 			}
@@ -728,6 +881,26 @@ func realClockInside(c Cfg) bool {
 	return off >= 0 && off < c.layout().maxTs()-86400000
 }
 
+// monoEpochDefect looks at the instant a MonoNode measures elapsed time from
+// (hook VerifMonoEpoch). The node cannot be driven by an injected clock, so its
+// immunity against steps of the wall clock is checked at its root: time.Since
+// uses the monotonic clock only if that instant carries a monotonic reading
+// (package time: such a Time prints with an " m=" suffix); without it every
+// Generate subtracts wall-clock readings and a backward step repeats ids. For
+// the epochs used here (1970..2026) time.Time.Add keeps the reading (it is only
+// dropped for results before 1885 or after 2157).
+func monoEpochDefect(node snowflake.Node, c Cfg) string {
+	ep, ok := snowflake.VerifMonoEpoch(node)
+	if !ok {
+		return "" // not a *MonoNode: nothing to look at, the id oracles still apply
+	}
+	if str := ep.String(); !strings.Contains(str, " m=") {
+		return fmt.Sprintf("NewMonoNode(%d), epoch %d ms: the node's reference instant %q carries no monotonic clock reading, time.Since(epoch) falls back to the wall clock and ids repeat when it steps back",
+			c.Node, c.EpochMs, str)
+	}
+	return ""
+}
+
 func ExecMono(c MonoCase) *vkit.Result {
 	res := &vkit.Result{}
 	if !c.Cfg.valid() || c.Cfg.EpochMs > ms2026 || c.Calls < 0 || c.Calls > 200000 {
@@ -740,7 +913,7 @@ func ExecMono(c MonoCase) *vkit.Result {
 		return res
 	}
 	c.Cfg.classes(res)
-	restoreCfg := snowflake.VerifSetConfig(c.Cfg.EpochMs, c.Cfg.NodeBits, c.Cfg.NodeAtLowest)
+	restoreCfg := c.Cfg.install(res)
 	defer restoreCfg()
 	node, err := snowflake.NewMonoNode(c.Cfg.Node)
 	if err != nil && c.Cfg.nodeOutside() {
@@ -749,6 +922,9 @@ func ExecMono(c MonoCase) *vkit.Result {
 	}
 	if err != nil || node == nil {
 		return res.Failf("mono/newnode", "NewMonoNode(%d) with nodeBits %d: %v", c.Cfg.Node, c.Cfg.NodeBits, err)
+	}
+	if msg := monoEpochDefect(node, c.Cfg); msg != "" {
+		return res.Failf("mono/epoch-not-monotonic", "%s", msg)
 	}
 	ids := make([]int64, c.Calls)
 	for i := range ids {
@@ -788,9 +964,9 @@ func GenMono(t *rapid.T) MonoCase {
 	return MonoCase{Cfg: genCfg(t, false), Calls: rapid.SampledFrom([]int{1000, 20000, 20000, 40000}).Draw(t, "calls")}
 }
 
-const ruleMono = "G: config as part hard with an epoch in 2000..2026; NewMonoNode(node) then a tight loop of 1 000 / 20 000 / 40 000 Generate calls on the real monotonic clock " +
+const ruleMono = "G: config as part hard with an epoch in 1970 (0)..2026; NewMonoNode(node) then a tight loop of 1 000 / 20 000 / 40 000 Generate calls on the real monotonic clock " +
 	"(more than 4096 per millisecond on this machine, so the spin-to-next-millisecond path runs; see class wrap-spin-to-next-ms). " +
-	"O: strict chain, decoded node == configured, non-negative. NT: two consecutive ids share a millisecond (the clock stalled between two calls)."
+	"O: strict chain, decoded node == configured, non-negative; the node's reference instant (hook VerifMonoEpoch) carries a monotonic clock reading (site mono/epoch-not-monotonic; also in parts multi and race-shared). NT: two consecutive ids share a millisecond (the clock stalled between two calls)."
 
 var PartMono = vkit.Part[MonoCase]{
 	Property: Property, Name: "mono", Rule: ruleMono,
@@ -916,7 +1092,7 @@ func ExecRace(c RaceCase) *vkit.Result {
 			return res
 		}
 		c.Cfg.classes(res)
-		restoreCfg := snowflake.VerifSetConfig(c.Cfg.EpochMs, c.Cfg.NodeBits, c.Cfg.NodeAtLowest)
+		restoreCfg := c.Cfg.install(res)
 		defer restoreCfg()
 		if c.Kind == "mono" {
 			if !realClockInside(c.Cfg) {
@@ -930,6 +1106,9 @@ func ExecRace(c RaceCase) *vkit.Result {
 			}
 			if err != nil || node == nil {
 				return res.Failf("race/newnode", "NewMonoNode(%d): %v", c.Cfg.Node, err)
+			}
+			if msg := monoEpochDefect(node, c.Cfg); msg != "" {
+				return res.Failf("mono/epoch-not-monotonic", "%s", msg)
 			}
 			gen = func(int, int) int64 { return node.Generate() }
 			break
@@ -957,6 +1136,9 @@ func ExecRace(c RaceCase) *vkit.Result {
 			}
 			if k > 0 && c.Segs[k].Delta < 0 {
 				res.Class("script-rewind")
+				if c.Segs[k].Delta < -msHour {
+					res.Class("script-rewind>1h")
+				}
 			}
 		}
 		if c.InitAheadMs < -1 || c.InitAheadMs > maxDelta || maxOff+c.InitAheadMs+int64(total/4096)+8 > lay.maxTs() {
@@ -1195,14 +1377,18 @@ func GenRace(t *rapid.T) RaceCase {
 	c.Calls = rapid.SampledFrom([]int{50, 300, 1000, 3000}).Draw(t, "calls")
 	c.Procs = rapid.SampledFrom([]int{2, 4, 8}).Draw(t, "procs")
 	total := c.G * c.Calls
-	genSegs := func(rew, fwd int64) {
+	genSegs := func(rew, fwd int64, scales bool) {
 		n := rapid.IntRange(1, 10).Draw(t, "nsegs")
 		for k := 0; k < n; k++ {
 			var s RSeg
 			if k > 0 {
 				switch rapid.IntRange(0, 5).Draw(t, "deltaKind") {
 				case 0:
-					s.Delta = -rapid.Int64Range(1, rew).Draw(t, "rewind")
+					if scales && rapid.Bool().Draw(t, "farRewind") {
+						s.Delta = -drawSpan(t, "rewind") // ms: seconds .. years
+					} else {
+						s.Delta = -rapid.Int64Range(1, rew).Draw(t, "rewind")
+					}
 				case 1:
 					s.Delta = -1
 				case 2:
@@ -1222,17 +1408,39 @@ func GenRace(t *rapid.T) RaceCase {
 	switch c.Kind {
 	case "hard":
 		c.Cfg = genCfg(t, true)
-		genSegs(10000, 86400000)
-		var fwd int64
+		genSegs(10000, 86400000, true)
+		var pre, need, minPre int64
 		for _, s := range c.Segs {
-			if s.Delta > 0 {
-				fwd += s.Delta
+			pre += s.Delta
+			if pre > need {
+				need = pre
+			}
+			if pre < minPre {
+				minPre = pre
 			}
 		}
 		if rapid.IntRange(0, 3).Draw(t, "ahead") == 0 {
-			c.InitAheadMs = rapid.SampledFrom([]int64{0, 1, 5, 1000}).Draw(t, "aheadMs")
+			c.InitAheadMs = rapid.SampledFrom([]int64{0, 1, 5, 1000, 5*msMinute + 1, msHour + 1, msDay + 1, msYear}).Draw(t, "aheadMs")
 		}
-		top := c.Cfg.layout().maxTs() - (fwd + 1000 + int64(total/4096) + 16)
+		ahead := c.InitAheadMs
+		if ahead < 0 {
+			ahead = 0
+		}
+		top := c.Cfg.layout().maxTs() - (need + ahead + int64(total/4096) + 16)
+		bottom := -c.Cfg.EpochMs - minPre // no reading before 1970
+		if top < bottom {
+			top = bottom // does not fit the width: ExecRace will skip it
+		}
+		anywhere := func() int64 {
+			lo := int64(0)
+			if lo < bottom {
+				lo = bottom
+			}
+			if lo >= top {
+				return lo
+			}
+			return rapid.Int64Range(lo, top).Draw(t, "anywhere")
+		}
 		boundary := int64(nanoEndMs) - c.Cfg.EpochMs
 		switch rapid.IntRange(0, 5).Draw(t, "startKind") {
 		case 0:
@@ -1240,20 +1448,26 @@ func GenRace(t *rapid.T) RaceCase {
 		case 1:
 			c.Start = 0
 		case 2:
-			c.Start = rapid.Int64Range(0, top).Draw(t, "anywhere")
+			c.Start = anywhere()
 		case 3:
 			c.Start = top - rapid.Int64Range(0, 5000).Draw(t, "nearEnd")
 		default:
 			if boundary > 0 && boundary < top {
 				c.Start = boundary - rapid.Int64Range(0, 3).Draw(t, "atHorizon")
 			} else {
-				c.Start = rapid.Int64Range(0, top).Draw(t, "anywhere")
+				c.Start = anywhere()
 			}
+		}
+		if c.Start > top {
+			c.Start = top
+		}
+		if c.Start < bottom {
+			c.Start = bottom
 		}
 	case "mono":
 		c.Cfg = genCfg(t, false)
 	case "nano":
-		genSegs(1000000000, 1<<40)
+		genSegs(1000000000, 1<<40, false)
 		c.NanoResume = rapid.SampledFrom([]string{"hour-ahead", "century-ahead", "now", "past", ""}).Draw(t, "resume")
 		if c.NanoResume == "" {
 			c.Start = rapid.Int64Range(math.MinInt64/2, nanoLimit/2).Draw(t, "startNs")
@@ -1277,7 +1491,7 @@ func GenRace(t *rapid.T) RaceCase {
 }
 
 const ruleRace = "G: one generator (HardNode on a scripted clock via VerifSetNow / MonoNode on the real clock / UnixNanoID created with a resume value 30 years back, now, one hour or 100 years ahead of the machine clock (or absolute), called through a drawn per-call mix of GenID() and GenIDByTS(scripted ts)) shared by 2,3,4,8,16 goroutines, " +
-	"50-3000 calls each, GOMAXPROCS 2/4/8; the scripted value is a function of one global atomic tick counter (1-10 segments: rewind, 0, +1, +small, +jump; 1..30000 ticks each) and every call is bracketed " +
+	"50-3000 calls each, GOMAXPROCS 2/4/8; the scripted value is a function of one global atomic tick counter (1-10 segments: rewind (HardNode: 1 ms..10 s or any scale up to 10 y), 0, +1, +small, +jump; 1..30000 ticks each; HardNode created with 0 or an id 0 ms..1 y ahead) and every call is bracketed " +
 	"by ticks of the same counter. O: all ids distinct; each goroutine's ids strictly increasing; call a returned before call b started => id_a < id_b (sweep over intervals); node field; " +
 	"HardNode timestamp >= the least clock value handed out during the call's interval; nano ids above the resume value. Part race-shared runs from a -race binary, part shared-plain is the same generator and oracle in the plain binary. NT: calls of different goroutines overlapped in tick time."
 
@@ -1293,4 +1507,407 @@ var PartSharedPlain = vkit.Part[RaceCase]{
 	Property: Property, Name: "shared-plain", Rule: ruleRace,
 	Quick: 300, Thorough: 1500,
 	Gen: GenRace, Exec: ExecRace,
+}
+
+// ---------------------------------------------------------------------------
+// part "multi": several generators alive at the same time
+//
+// Every other part owns exactly one live generator. Here two or three snowflake
+// nodes with different node numbers (HardNodes on the injected clock, sometimes
+// a MonoNode on the real one) and, in half of the cases, two unix-nano
+// generators live side by side and are called alternately: the statement is
+// about "the same generator", so each chain has to stay strictly increasing and
+// every snowflake id has to carry the node of the generator that returned it,
+// whatever was created, restarted or called in between.
+
+type MultiGen struct {
+	Kind string `json:"kind"` // hard | mono | nano | nano-nolock
+	// snowflake kinds: node number, inside the node field, different from the other snowflake generators of the case
+	Node int64 `json:"node,omitempty"`
+	// hard: created with an id AheadMs ahead of the first clock reading (step 4095); -1: created with 0
+	AheadMs int64 `json:"ahead_ms,omitempty"`
+	// nano kinds: the current value it is created with
+	Init int64 `json:"init,omitempty"`
+}
+
+// MultiOp: the injected clock moves by DeltaMs, then generator G is (hard only:
+// optionally restarted with its last id and) called N times; nano generators are
+// called with GenIDByTS(Ts).
+type MultiOp struct {
+	G       int   `json:"g"`
+	N       int   `json:"n"`
+	DeltaMs int64 `json:"delta_ms,omitempty"`
+	Ts      int64 `json:"ts,omitempty"`
+	Restart bool  `json:"restart,omitempty"`
+}
+
+type MultiCase struct {
+	Cfg        Cfg        `json:"cfg"` // Cfg.Node is not used (the generators carry their nodes)
+	StartOffMs int64      `json:"start_off_ms"`
+	Gens       []MultiGen `json:"gens"`
+	Ops        []MultiOp  `json:"ops"`
+}
+
+func isSnow(kind string) bool { return kind == "hard" || kind == "mono" }
+
+func ExecMulti(c MultiCase) *vkit.Result {
+	res := &vkit.Result{}
+	cfg := c.Cfg
+	cfg.Node = 0
+	if !cfg.valid() || len(c.Gens) < 2 || len(c.Gens) > 6 || len(c.Ops) < 1 || len(c.Ops) > 64 {
+		res.Skip("invalid-shape")
+		return res
+	}
+	lay := cfg.layout()
+	nodeMax := int64(1)<<cfg.NodeBits - 1
+	nSnow, nNano, haveMono := 0, 0, false
+	maxAhead := int64(0)
+	for i, g := range c.Gens {
+		switch g.Kind {
+		case "hard", "mono":
+			if g.Node < 0 || g.Node > nodeMax || g.AheadMs < -1 || g.AheadMs > maxDelta {
+				res.Skip("invalid-shape")
+				return res
+			}
+			for _, h := range c.Gens[:i] {
+				if isSnow(h.Kind) && h.Node == g.Node {
+					res.Skip("equal-nodes") // two live nodes with one number are outside the documented use
+					return res
+				}
+			}
+			nSnow++
+			if g.Kind == "mono" {
+				haveMono = true
+			} else if g.AheadMs > maxAhead {
+				maxAhead = g.AheadMs
+			}
+		case "nano", "nano-nolock":
+			if g.Init > nanoLimit {
+				res.Skip("init-beyond-headroom")
+				return res
+			}
+			nNano++
+		default:
+			res.Skip("unknown-kind")
+			return res
+		}
+	}
+	if haveMono && (cfg.EpochMs > ms2026 || !realClockInside(cfg)) {
+		res.Skip("real-clock-outside-width")
+		return res
+	}
+	// domain of the wall-clock nodes: readings not before 1970, readings + leads + consumed slots inside the width
+	off, maxOff, hardCalls := c.StartOffMs, c.StartOffMs, 0
+	if off > maxDelta || off < -maxDelta || cfg.EpochMs+off < 0 {
+		res.Skip("out-of-width")
+		return res
+	}
+	for _, op := range c.Ops {
+		if op.G < 0 || op.G >= len(c.Gens) || op.N < 0 || op.N > maxCalls || op.DeltaMs > maxDelta || op.DeltaMs < -maxDelta {
+			res.Skip("malformed-op")
+			return res
+		}
+		off += op.DeltaMs
+		if off > maxDelta || off < -maxDelta {
+			res.Skip("out-of-width")
+			return res
+		}
+		if cfg.EpochMs+off < 0 {
+			res.Skip("clock-before-1970")
+			return res
+		}
+		if off > maxOff {
+			maxOff = off
+		}
+		if c.Gens[op.G].Kind == "hard" {
+			hardCalls += op.N
+		}
+	}
+	if maxOff < 0 {
+		maxOff = 0
+	}
+	if maxOff+maxAhead+int64(hardCalls/4096)+int64(len(c.Ops))+8 > lay.maxTs() {
+		res.Skip("out-of-width")
+		return res
+	}
+	cfg.classes(res)
+	res.Class(fmt.Sprintf("snowflake-nodes=%d", nSnow))
+	res.Class(fmt.Sprintf("nano-generators=%d", nNano))
+	if haveMono {
+		res.Class("with-mono-node")
+	}
+
+	restoreCfg := cfg.install(res)
+	defer restoreCfg()
+	off = c.StartOffMs
+	cur := msTime(cfg.EpochMs+off, 0)
+	restoreNow := snowflake.VerifSetNow(func() time.Time { return cur })
+	defer restoreNow()
+
+	type live struct {
+		node         snowflake.Node
+		nano         nanoGen
+		prev         int64 // greatest id issued, or the id / current value it was created with
+		have         bool  // prev is a bound the next id has to exceed
+		afterRestart bool
+		calledOps    int
+	}
+	gens := make([]live, len(c.Gens))
+	for i, g := range c.Gens {
+		l := &gens[i]
+		switch g.Kind {
+		case "hard":
+			last := int64(0)
+			if g.AheadMs >= 0 {
+				base := off
+				if base < 0 {
+					base = 0
+				}
+				last = lay.compose(base+g.AheadMs, g.Node, stepMax)
+				l.prev, l.have, l.afterRestart = last, true, true
+			}
+			n, err := snowflake.NewNode(g.Node, last)
+			if err != nil || n == nil {
+				return res.Failf("multi/newnode", "generator %d: NewNode(%d, %d) with nodeBits %d: %v", i, g.Node, last, cfg.NodeBits, err)
+			}
+			l.node = n
+		case "mono":
+			n, err := snowflake.NewMonoNode(g.Node)
+			if err != nil || n == nil {
+				return res.Failf("multi/newnode", "generator %d: NewMonoNode(%d) with nodeBits %d: %v", i, g.Node, cfg.NodeBits, err)
+			}
+			if msg := monoEpochDefect(n, Cfg{EpochMs: cfg.EpochMs, NodeBits: cfg.NodeBits, NodeAtLowest: cfg.NodeAtLowest, Node: g.Node}); msg != "" {
+				return res.Failf("mono/epoch-not-monotonic", "%s", msg)
+			}
+			l.node = n
+		case "nano":
+			l.nano, l.prev, l.have = nano.NewUnixNanoID(g.Init), g.Init, true
+		case "nano-nolock":
+			l.nano, l.prev, l.have = nano.NewUnixNanoNoLockID(g.Init), g.Init, true
+		}
+	}
+
+	calls := 0
+	lastOpOf := map[bool]int{} // family (snowflake / nano) -> generator of the family's previous op
+	lastOpOf[true], lastOpOf[false] = -1, -1
+	switched := map[int]bool{} // generators another one of the same family was called after
+	for k, op := range c.Ops {
+		off += op.DeltaMs
+		cur = msTime(cfg.EpochMs+off, 0)
+		g := c.Gens[op.G]
+		l := &gens[op.G]
+		if op.Restart && g.Kind == "hard" {
+			last := int64(0)
+			if l.have {
+				last = l.prev
+			}
+			n, err := snowflake.NewNode(g.Node, last)
+			if err != nil || n == nil {
+				return res.Failf("multi/newnode", "op %d: restart of generator %d: NewNode(%d, %d): %v", k, op.G, g.Node, last, err)
+			}
+			l.node, l.afterRestart = n, l.have
+			res.Class("restart-while-others-live")
+		}
+		if op.N == 0 {
+			continue
+		}
+		fam := isSnow(g.Kind)
+		if p := lastOpOf[fam]; p >= 0 && p != op.G {
+			switched[p] = true
+		}
+		if switched[op.G] && l.calledOps > 0 {
+			// called, then another generator of its family, now called again
+			res.Class("alternated")
+			res.NonTrivial = true
+		}
+		lastOpOf[fam] = op.G
+		l.calledOps++
+		if !fam && op.Ts > nanoLimit {
+			res.Skip("ts-beyond-headroom")
+			continue
+		}
+		for i := 0; i < op.N; i++ {
+			calls++
+			if !fam {
+				id := l.nano.GenIDByTS(op.Ts)
+				if id <= l.prev {
+					return res.Failf("multi/nano-not-increasing", "op %d call %d: generator %d (%s) GenIDByTS(%d) = %d, not above its previous id / initial current %d", k, i, op.G, g.Kind, op.Ts, id, l.prev)
+				}
+				if op.Ts > l.prev && id != op.Ts {
+					// documented: "if bigger than current, return it" - current is this generator's own
+					return res.Failf("multi/nano-ts-not-returned", "op %d call %d: generator %d (%s) GenIDByTS(%d) = %d though the timestamp is above its own previous id %d", k, i, op.G, g.Kind, op.Ts, id, l.prev)
+				}
+				l.prev = id
+				continue
+			}
+			id := l.node.Generate()
+			ts, nd, st := lay.decode(id)
+			if id < 0 {
+				return res.Failf("multi/negative-id", "op %d call %d: generator %d (%s node %d): id %d has the sign bit set", k, i, op.G, g.Kind, g.Node, id)
+			}
+			if l.have && id <= l.prev {
+				pts, pnd, pst := lay.decode(l.prev)
+				site, what := "multi/not-increasing", "previous id of the same generator"
+				if l.afterRestart {
+					site, what = "multi/restart-not-above-last", "last id given to NewNode"
+				}
+				return res.Failf(site, "op %d call %d: generator %d (%s node %d, clock %d ms after epoch): id %d (ts %d node %d step %d) is not above the %s %d (ts %d node %d step %d)",
+					k, i, op.G, g.Kind, g.Node, off, id, ts, nd, st, what, l.prev, pts, pnd, pst)
+			}
+			if nd != g.Node {
+				return res.Failf("multi/node-field", "op %d call %d: generator %d was created as %s node %d, its id %d decodes to node %d (ts %d step %d); live snowflake generators: %d, nodeBits %d nodeAtLowest %v",
+					k, i, op.G, g.Kind, g.Node, id, nd, ts, st, nSnow, cfg.NodeBits, cfg.NodeAtLowest)
+			}
+			if g.Kind == "hard" && ts < off {
+				return res.Failf("multi/ts-before-clock", "op %d call %d: generator %d (hard node %d): clock reads %d ms after the epoch, id %d carries timestamp %d", k, i, op.G, g.Node, off, id, ts)
+			}
+			l.prev, l.have, l.afterRestart = id, true, false
+		}
+	}
+	if calls == 0 {
+		res.NonTrivial = false
+		res.Skip("no-calls")
+	}
+	return res
+}
+
+func GenMulti(t *rapid.T) MultiCase {
+	withMono := rapid.IntRange(0, 3).Draw(t, "withMono") == 0
+	c := MultiCase{Cfg: genCfg(t, !withMono)}
+	c.Cfg.Node = 0
+	lay := c.Cfg.layout()
+	nodeMax := int64(1)<<c.Cfg.NodeBits - 1
+	nSnow := rapid.IntRange(2, 3).Draw(t, "nSnow")
+	nodes := rapid.SliceOfNDistinct(rapid.OneOf(rapid.SampledFrom([]int64{0, 1, 2, nodeMax - 1, nodeMax}), rapid.Int64Range(0, nodeMax)),
+		nSnow, nSnow, func(v int64) int64 { return v }).Draw(t, "nodes")
+	for i, nd := range nodes {
+		g := MultiGen{Kind: "hard", Node: nd, AheadMs: -1}
+		if withMono && (i == 1 || rapid.IntRange(0, 3).Draw(t, "alsoMono") == 0) {
+			g = MultiGen{Kind: "mono", Node: nd}
+		} else if rapid.IntRange(0, 3).Draw(t, "createdAhead") == 0 {
+			g.AheadMs = rapid.SampledFrom([]int64{0, 1, 1000, msHour + 1, msDay + 1}).Draw(t, "aheadMs")
+		}
+		c.Gens = append(c.Gens, g)
+	}
+	if rapid.Bool().Draw(t, "withNano") {
+		for i := 0; i < 2; i++ {
+			g := MultiGen{Kind: "nano"}
+			if rapid.Bool().Draw(t, "noLock") {
+				g.Kind = "nano-nolock"
+			}
+			switch rapid.IntRange(0, 3).Draw(t, "initKind") {
+			case 0:
+				g.Init = 0
+			case 1:
+				g.Init = rapid.Int64Range(-1000, 1000).Draw(t, "initSmall")
+			case 2:
+				g.Init = 1790000000000000000 + rapid.Int64Range(-1<<50, 1<<50).Draw(t, "initNow")
+			default:
+				g.Init = rapid.Int64Range(math.MinInt64, nanoLimit).Draw(t, "init")
+			}
+			c.Gens = append(c.Gens, g)
+		}
+	}
+	nops := rapid.IntRange(3, 24).Draw(t, "nops")
+	ts := c.Gens[len(c.Gens)-1].Init
+	hardCalls := 0
+	for k := 0; k < nops; k++ {
+		op := MultiOp{G: rapid.IntRange(0, len(c.Gens)-1).Draw(t, "g")}
+		g := c.Gens[op.G]
+		op.N = rapid.SampledFrom([]int{1, 1, 2, 3, 7, 4096, 4097}).Draw(t, "n")
+		if g.Kind != "hard" && op.N > 7 {
+			op.N = 5 // the real-clock node and the nano generators: short bursts
+		}
+		if g.Kind == "hard" {
+			hardCalls += op.N
+			op.Restart = rapid.IntRange(0, 7).Draw(t, "restart") == 0
+		}
+		if isSnow(g.Kind) {
+			switch rapid.IntRange(0, 7).Draw(t, "deltaKind") {
+			case 0:
+				op.DeltaMs = -1
+			case 1:
+				op.DeltaMs = 1
+			case 2:
+				op.DeltaMs = rapid.Int64Range(2, 50).Draw(t, "fwd")
+			case 3:
+				op.DeltaMs = -drawSpan(t, "rewind")
+			case 4:
+				op.DeltaMs = rapid.SampledFrom(bigJumps).Draw(t, "jump")
+			}
+		} else {
+			switch rapid.IntRange(0, 7).Draw(t, "tsKind") {
+			case 0:
+				ts--
+			case 1:
+				ts++
+			case 2:
+				ts -= rapid.Int64Range(1, 1000000).Draw(t, "back")
+			case 3:
+				ts += rapid.Int64Range(1, 1000000).Draw(t, "fwd")
+			case 4:
+				ts = rapid.Int64Range(math.MinInt64/2, nanoLimit/2).Draw(t, "abs")
+			case 5:
+				ts = c.Gens[op.G].Init + rapid.Int64Range(-3, 3).Draw(t, "nearInit")
+			}
+			op.Ts = ts
+		}
+		c.Ops = append(c.Ops, op)
+	}
+	var pre, need, minPre, maxAhead int64
+	for _, op := range c.Ops {
+		pre += op.DeltaMs
+		if pre > need {
+			need = pre
+		}
+		if pre < minPre {
+			minPre = pre
+		}
+	}
+	for _, g := range c.Gens {
+		if g.Kind == "hard" && g.AheadMs > maxAhead {
+			maxAhead = g.AheadMs
+		}
+	}
+	top := lay.maxTs() - (need + maxAhead + int64(hardCalls/4096) + int64(len(c.Ops)) + 16)
+	bottom := -c.Cfg.EpochMs - minPre
+	if top < bottom {
+		top = bottom
+	}
+	switch rapid.IntRange(0, 4).Draw(t, "startKind") {
+	case 0:
+		c.StartOffMs = -rapid.Int64Range(1, 5000).Draw(t, "beforeEpoch")
+	case 1:
+		c.StartOffMs = 0
+	case 2:
+		c.StartOffMs = top - rapid.Int64Range(0, 5000).Draw(t, "nearEnd")
+	default:
+		lo := int64(0)
+		if lo < bottom {
+			lo = bottom
+		}
+		c.StartOffMs = lo
+		if lo < top {
+			c.StartOffMs = rapid.Int64Range(lo, top).Draw(t, "anywhere")
+		}
+	}
+	if c.StartOffMs > top {
+		c.StartOffMs = top
+	}
+	if c.StartOffMs < bottom {
+		c.StartOffMs = bottom
+	}
+	return c
+}
+
+const ruleMulti = "G: config as part hard (epoch up to 2026 when a MonoNode takes part); 2-3 snowflake generators with pairwise different in-field node numbers {0,1,2,max-1,max,random} - HardNodes on one injected clock " +
+	"(created with 0 or with an id 0 ms..1 d ahead of the clock), in 1 of 4 cases one or more MonoNodes on the real clock - and in half of the cases two unix-nano generators (locked / lock-free, any initial current), all alive together; " +
+	"3-24 operations {generator, 1..7 or 4096/4097 calls, clock delta -1/0/+1/+small/rewind on any scale/+jump, HardNode optionally restarted with its last id first; nano: GenIDByTS(ts) on a ts walk}. " +
+	"O: per generator: ids strictly increasing and above the id / current it was (re)created with; every snowflake id decodes (own decoder) to the node of the generator that returned it; HardNode timestamp >= clock - epoch; " +
+	"nano: a ts above the generator's own previous id is returned unchanged; MonoNode epoch carries a monotonic reading. NT: some generator is called, then another one of its family, then the first again."
+
+var PartMulti = vkit.Part[MultiCase]{
+	Property: Property, Name: "multi", Rule: ruleMulti,
+	Quick: 1500, Thorough: 15000,
+	Gen: GenMulti, Exec: ExecMulti,
 }
